@@ -770,10 +770,14 @@ func (lb *LoadBalancer) proxyRequest(backend *Backend, w http.ResponseWriter, r 
 	// The documented end-to-end handler timeout bounds the whole exchange, so a
 	// backend that stalls in the middle of its response body cannot keep the
 	// request (and its connection slot) open for as long as it likes.
-	// Upgraded connections (WebSocket tunnels) live on beyond it.
-	if d := lb.handlerTimeout(); d > 0 && r.Header.Get("Upgrade") == "" {
-		ctx, cancel := context.WithTimeout(r.Context(), d)
+	// Only a connection that is really taken over (a WebSocket tunnel after
+	// the backend's 101) lives on beyond it; an Upgrade header alone does not.
+	if d := lb.handlerTimeout(); d > 0 {
+		ctx, cancel := context.WithCancel(r.Context())
 		defer cancel()
+		timer := time.AfterFunc(d, cancel)
+		defer timer.Stop()
+		rw.onHijack = func() { timer.Stop() }
 		r = r.WithContext(ctx)
 	}
 
@@ -858,6 +862,7 @@ type responseWriter struct {
 	http.ResponseWriter
 	statusCode int
 	preset     http.Header // headers set before proxying (request / trace IDs, plugins)
+	onHijack   func()      // called when the connection is taken over (upgrade)
 }
 
 // WriteHeader captures the status code
@@ -910,6 +915,9 @@ func (rw *responseWriter) Hijack() (net.Conn, *bufio.ReadWriter, error) {
 	h, ok := rw.ResponseWriter.(http.Hijacker)
 	if !ok {
 		return nil, nil, fmt.Errorf("response writer does not implement http.Hijacker")
+	}
+	if rw.onHijack != nil {
+		rw.onHijack()
 	}
 	return h.Hijack()
 }
